@@ -263,8 +263,7 @@ fn record(hist: &[Op], m: &MModel, hits: Vec<(String, String)>, order: (u64, u64
     }
 }
 
-pub fn run(shape_idx: u64, _threads: usize) -> Acc {
-    let depth = 4;
+pub fn run(shape_idx: u64, depth: usize) -> Acc {
     let mut acc = Acc::new();
     let ops = alphabet();
     struct S {
